@@ -46,6 +46,10 @@ func (f *AppArmorProfileFile) Resolve() error {
 		}
 	}
 
+	if err := f.checkRecursiveVariables(); err != nil {
+		return err
+	}
+
 	// Resolve variables
 	for _, variable := range f.Preamble.GetVariables() {
 		newValues := []string{}
@@ -72,6 +76,49 @@ func (f *AppArmorProfileFile) Resolve() error {
 		profile.Attachments = attachments
 	}
 
+	return nil
+}
+
+// checkRecursiveVariables reports a variable whose values reference itself,
+// directly or through other variables.
+func (f *AppArmorProfileFile) checkRecursiveVariables() error {
+	refs := map[string][]string{}
+	names := []string{}
+	for _, variable := range f.Preamble.GetVariables() {
+		if _, ok := refs[variable.Name]; !ok {
+			names = append(names, variable.Name)
+		}
+		for _, value := range variable.Values {
+			for _, match := range regVariableReference.FindAllStringSubmatch(value, -1) {
+				refs[variable.Name] = append(refs[variable.Name], match[1])
+			}
+		}
+	}
+
+	const visiting, done = 1, 2
+	state := map[string]int{}
+	var visit func(name string) error
+	visit = func(name string) error {
+		switch state[name] {
+		case visiting:
+			return fmt.Errorf("recursive variable found in: %s", name)
+		case done:
+			return nil
+		}
+		state[name] = visiting
+		for _, ref := range refs[name] {
+			if err := visit(ref); err != nil {
+				return err
+			}
+		}
+		state[name] = done
+		return nil
+	}
+	for _, name := range names {
+		if err := visit(name); err != nil {
+			return err
+		}
+	}
 	return nil
 }
 
